@@ -95,12 +95,16 @@ class HostileRun:
         # bystanders
         self.mon = Actor(w, "mon")
         self.mon.open()
-        self.mon.handshake("v2v1", req_id=90, logger=True, name=b"monitor")
+        self.mon.handshake("v2v1", req_id=90, logger=not ch.flag("cfg.mon_plain", 1, 4), name=b"monitor")
         self.mon.subscribe(C.ALL_MESSAGE_TYPES)
         self.sub = Actor(w, "S")
         self.sub.open()
         self.sub.handshake("v2v1", req_id=91, name=b"bystander_s")
         self.sub.subscribe(4000)
+        if ch.flag("cfg.s_status", 1, 2):
+            # S also follows what the manager itself announces (so it is served in the same broadcasts as offenders)
+            for t in (C.MT_CLIENT_INFO, C.MT_CLIENT_CLOSED, C.MT_FAILED_MESSAGE, C.MT_RTMA_LOG_ERROR):
+                self.sub.subscribe(t)
         self.pub = Actor(w, "P")
         self.pub.open()
         self.pub.handshake("v1", req_id=92)
@@ -470,6 +474,22 @@ class HostileRun:
             res.probes["bystander_msgs_checked"] += len(self.p_sent)
         if left:
             res.add("C03", "bystander_stream", "bystander S stream ends inside a frame")
+        # what the manager wrote to each well-behaved client is still a sequence of whole, consecutively numbered
+        # frames: an offender must not be able to garble somebody else's stream
+        for b in self.bystanders:
+            fr, lf = b.received()
+            for i, (h, _p) in enumerate(fr):
+                if h.msg_count != i + 1:
+                    res.add("C03", "bystander_stream",
+                            f"the stream written to well-behaved client {b.name} is garbled: frame #{i + 1} "
+                            f"(type={h.msg_type}, {h.num_data_bytes} bytes) carries sequence number {h.msg_count}",
+                            sig="bystander_stream")
+                    break
+            else:
+                if lf and b.conn not in closed:
+                    res.add("C03", "bystander_stream", f"the stream written to well-behaved client {b.name} ends inside a frame",
+                            sig="bystander_stream")
+            res.probes["bystander_streams_checked"] += 1
         # (ii) bounded liveness once faults have stopped
         w.force_writable = lambda rnd, cands: {s.idx for s in cands}
         s2 = Actor(w, "probe_sub")
